@@ -215,15 +215,18 @@ func mapReduceWithPanicChan(source <-chan any, panicChan *onceChan, mapper Mappe
 
 	// 聚合数据
 	go func() {
+		// panic(nil) 时 recover() 返回 nil，不能只靠它的返回值判断是否发生了 panic
+		returned := false
 		defer func() {
 			drain(collector)
-			if r := recover(); r != nil {
+			if r := recover(); r != nil || !returned {
 				panicChan.write(r)
 			}
 			finish()
 		}()
 
 		reducer(collector, writer, cancel)
+		returned = true
 	}()
 
 	// 加工数据
@@ -294,8 +297,9 @@ func executeMappers(mCtx mapperContext) {
 
 			wg.Add(1)
 			go func() {
+				returned := false
 				defer func() {
-					if r := recover(); r != nil {
+					if r := recover(); r != nil || !returned {
 						atomic.AddInt32(&failed, 1)
 						mCtx.panicChan.write(r)
 					}
@@ -305,6 +309,7 @@ func executeMappers(mCtx mapperContext) {
 				}()
 
 				mCtx.mapper(item, writer)
+				returned = true
 			}()
 		}
 	}
@@ -344,14 +349,16 @@ func newOptions() *mapReduceOptions {
 func buildSource(generate GenerateFunc, panicChan *onceChan) chan any {
 	source := make(chan any)
 	go func() {
+		returned := false
 		defer func() {
-			if r := recover(); r != nil {
+			if r := recover(); r != nil || !returned {
 				panicChan.write(r)
 			}
 			close(source)
 		}()
 
 		generate(source)
+		returned = true
 	}()
 
 	return source
